@@ -16,6 +16,10 @@
        order (xnrt_follow).  Corollary rt_nrt_agree_ordered_partial: executions in the scheduler's order agree with the NRT run.
    (3) rt_nrt_cross_clock_refuted: in another order, routines that share state across clocks can observe other values (witness
        reproduced on the real library by making one clock thread late; recorded as a known finding).
+   (4) rt_observation_depends_only_on_order: EVERY program of the class: the oracle (start instant, offset, readings) influences
+       an execution only through the ORDER of the wake-ups; the order matters across clocks (seeded_run_rt_order_dependent_refuted).
+   (5) rt_nrt_before_start_refuted: the proviso 'no task at a negative logical time' of (2), (4) is necessary (a forward jump of
+       a clock's beats puts a pending task before the start: RT sends, NRT cannot pack the timetag).
    NOT PROVED (the remaining part of the property's statement): for programs whose routines do not communicate across clocks,
    the executions in ANOTHER order than the scheduler's.  By (2) this is a statement about the non-real-time semantics alone:
        forall rids accepted, per-routine observations of xnrt_follow gen p rids = those of xnrt_loop (the scheduler's order),
@@ -169,6 +173,46 @@ Theorem rt_nrt_agree_ordered_partial : forall gen off p t0 sched,
   obs_rt gen off p t0 sched = obs_nrt gen p (length sched).
 Proof. exact rt_nrt_agree_ordered. Qed.
 
+(* Determinism of seeded real-time runs, EVERY program of the class: the observation depends on the oracle ONLY through
+   the order in which the clock threads perform the wake-ups -- two accepted executions in the same order, with
+   different start instants, timetag offsets and physical clock readings (jitter), give the same observation: values,
+   their order, resumption times, bundles.  (For single-clock programs the order is immaterial too:
+   seeded_run_deterministic_partial; across clocks it is not: seeded_run_rt_order_dependent_refuted.) *)
+Theorem rt_observation_depends_only_on_order : forall gen off1 off2 p t1 t2 s1 s2,
+  prog_ok2 p -> 0 <= t1 -> 0 <= t2 -> (0 <= off1)%Z -> (0 <= off2)%Z ->
+  xs_bad (xrt_run gen off1 p t1 s1) = false -> xs_bad (xrt_run gen off2 p t2 s2) = false ->
+  map fst s1 = map fst s2 -> snd (xnrt_follow gen p (map fst s1)) = true ->
+  obs_rt gen off1 p t1 s1 = obs_rt gen off2 p t2 s2.
+Proof. exact rt_depends_only_on_order. Qed.
+
+(* the unrestricted determinism statement is FALSE in real time: two accepted, complete, never-early executions of one
+   seeded program (routines on two clocks drawing from one inherited generator) serve the values to different routines *)
+Theorem seeded_run_rt_order_dependent_refuted :
+  let s1 := xrt_run kgen 0 cross_prog 0 cross_sched in
+  let s2 := xrt_run kgen 0 cross_prog 0 cross_sched_ordered in
+  xs_bad s1 = false /\ xs_bad s2 = false /\ xs_early s1 = false /\ xs_early s2 = false /\
+  n_q (x_n (xs s1)) = [] /\ n_q (x_n (xs s2)) = [] /\
+  ob_vals (obs_rt kgen 0 cross_prog 0 cross_sched) = [VDraw 2 1 1 0 5000; VDraw 1 1 1 0 5001] /\
+  ob_vals (obs_rt kgen 0 cross_prog 0 cross_sched_ordered) = [VDraw 1 1 1 0 5000; VDraw 2 1 1 0 5001].
+Proof. exact rt_order_dependent. Qed.
+
+(* the proviso "no task at a negative logical time" of the two theorems above cannot be dropped: a forward jump of a
+   clock's beats moves a pending task BEFORE the start of the score; performed in the scheduler's order, accepted and
+   never early, the real-time execution sends the bundle, the non-real-time one cannot pack the timetag, the send raises
+   and the routine ends (same resumption times in both modes; reproduced on the real library: OscBundleBuildError) *)
+Theorem rt_nrt_before_start_refuted :
+  let s := xrt_run kgen 100 neg_prog 0 neg_sched in
+  xs_bad s = false /\ xs_early s = false /\
+  map fst neg_sched = xnrt_order kgen neg_prog (length neg_sched) (xnrt_init neg_prog) /\
+  snd (xnrt_follow kgen neg_prog (map fst neg_sched)) = false /\
+  ob_resumes (obs_rt kgen 100 neg_prog 0 neg_sched) = ob_resumes (obs_nrt kgen neg_prog 5) /\
+  In (rs 1 1 (-77#8)) (ob_resumes (obs_nrt kgen neg_prog 5)) /\
+  ob_bundles (obs_rt kgen 100 neg_prog 0 neg_sched) = [(-77#8, (None, [EMsg 1]))] /\
+  ob_bundles (obs_nrt kgen neg_prog 5) = [] /\
+  ob_ends (obs_rt kgen 100 neg_prog 0 neg_sched) = [(0%nat, 2%nat, false)] /\
+  ob_ends (obs_nrt kgen neg_prog 5) = [(1%nat, 1%nat, true); (0%nat, 2%nat, false)].
+Proof. exact before_start_refuted. Qed.
+
 (* ---- a syntactic sufficient condition for own_seed_stream_independent -------------------------------------- *)
 (* A body that seeds first and afterwards never plays, forks nor re-seeds (leafy: everything else is allowed:
    yields, sends, draws, conditions, flow variables, pause/resume, tempo changes): EVERY instance of it, in
@@ -225,6 +269,17 @@ Example c10_ordered_instance :
 Proof.
   apply (rt_nrt_agree_ordered_partial kgen 3 cross_prog 5); [exact c10_cross_in_class|discriminate|discriminate| | |]; vm_compute; reflexivity.
 Qed.
+(* the out-of-order execution of the cross-clock program under two different oracles (start 0 / 5, offsets 0 / 3, other
+   clock readings): same order of wake-ups, same observation *)
+Example c10_order_only_instance :
+  obs_rt kgen 0 cross_prog 0 cross_sched =
+  obs_rt kgen 3 cross_prog 5 [wk 0 5; wk 1 5; wk 2 6; wk 2 7; wk 1 9; wk 0 9].
+Proof.
+  apply rt_observation_depends_only_on_order; [exact c10_cross_in_class|discriminate|discriminate|discriminate|discriminate| | | |];
+    vm_compute; reflexivity.
+Qed.
+Example c10_neg_in_class : prog_ok2 neg_prog.
+Proof. split; repeat constructor; simpl; try lra; try discriminate. Qed.
 (* the beats setter inside the routine's own wake-up: in the class; the ordered real-time execution (start 2, offset 9)
    agrees with the non-real-time run, where routine 1 resumes at 0, 1/16, 1/8, then at beat 1/2 + 1/4 = 3/4 of the rewound
    clock = 5/16 s, then 7/16 *)
@@ -254,3 +309,6 @@ Print Assumptions rt_nrt_agree_ordered_partial.
 Print Assumptions own_seed_stream_independent_syntactic.
 Print Assumptions inherited_generator_interleaves_deterministically.
 Print Assumptions rt_nrt_cross_clock_refuted.
+Print Assumptions rt_observation_depends_only_on_order.
+Print Assumptions seeded_run_rt_order_dependent_refuted.
+Print Assumptions rt_nrt_before_start_refuted.
